@@ -525,7 +525,11 @@ fn check_one(
     if v.chars().any(|c| !c.is_ascii_alphanumeric()) {
         rep.nontrivial(hash_str(v) ^ hash_str(p).rotate_left(17) ^ (d as u64));
     }
-    if d == Dialect::Sqlite {
+    // names that collide with the fixture's own objects (or SQLite's reserved prefix) make the engine
+    // refuse for reasons unrelated to quoting: the engine read-back is skipped for them
+    let lower = v.to_lowercase();
+    let collides = ["t", "u", "c", "id", "n"].contains(&lower.as_str()) || lower.starts_with("sqlite_");
+    if d == Dialect::Sqlite && !collides {
         if let Some(r) = engine_name(db, p, &sql) {
             rep.count("engine_names_checked", 1);
             match r {
